@@ -14,6 +14,7 @@ EXPLANATION = (
     "by a check that implies the needed length (starts_with(constant), explicit len comparison), or its bound is the "
     "decoder's consumed-size (accepted idiom, assumption recorded). R07.6: read_slice returns &slice[MAGIC.len()+size..]."
 )
+THOROUGH_CONFIGS = [C.MINIMAL, C.NO_TAG]
 NOT_DECIDED = [
     "that bincode errors on every truncated payload and never yields a different model (trusted base)",
     "equality of re-serialised bytes / of predictions",
@@ -34,8 +35,7 @@ def magic_bytes(w):
 
 
 def run(chk):
-    w = facts.world("W")
-    chk.configs.add("W")
+    w = C.world_for(chk)
     for rid, txt in (("R07.1", "magic written first / compared whole before decoding"), ("R07.2", "one bincode configuration"),
                      ("R07.3", "derived Encode/Decode symmetry"), ("R07.4", "error discipline in model IO"),
                      ("R07.5", "guarded indexing of the caller's slice"), ("R07.6", "remainder slice form")):
@@ -46,6 +46,8 @@ def run(chk):
     # ---------------------------------------------------------------- writers
     for fnm, sink_call in (("to_vec", "encode_into_writer"), ("write", "encode_into_std_write")):
         fn = M + "::" + fnm
+        if chk.config != "W" and w.body(fn) is None:
+            continue   # reader/writer based I/O exists only with std
         b, it, outs = C.run_fn(w, fn)
         chk.fn(fn)
         oks = [o for o in outs if o.kind == "return" and effects.ret_class(o.value_at((("L", 0),))) == "Ok"]
@@ -76,6 +78,8 @@ def run(chk):
     # ---------------------------------------------------------------- readers
     for fnm, dec_call in (("read", "decode_from_std_read"), ("read_slice", "decode_from_slice")):
         fn = M + "::" + fnm
+        if chk.config != "W" and w.body(fn) is None:
+            continue
         b, it, outs = C.run_fn(w, fn)
         chk.fn(fn)
         oks = [o for o in outs if o.kind == "return" and effects.ret_class(o.value_at((("L", 0),))) == "Ok"]
@@ -241,7 +245,7 @@ def r072(chk, w):
             chk.ob("R07.2", "%s:%s" % (bd.fn.replace("vaporetto::", ""), e[2].split("::")[-1]), ok,
                    "%s passes a configuration that is not the plain value of bincode::config::standard(): %s" % (bd.fn, (info or [cfgarg])[0]), site=C.site(bd, e[1]),
                    sample={"fn": bd.fn, "entry": e[2]})
-    chk.floor("R07.2", "bincode entry points", n, 10)
+    chk.floor("R07.2", "bincode entry points", n, 10, other=4)
 
 
 def r073(chk, w):
@@ -266,7 +270,7 @@ def r073(chk, w):
         n += 1
         chk.ob("R07.3", p.split("::")[-1], ok, "type %s (part of the model file) does not have both Encode and Decode produced by the derive macro (Encode: %s, Decode: %s): a hand-written side can disagree with the other"
                % (p, [i.get("derive") for i in enc], [i.get("derive") for i in dec]), site=c.adts[p]["span"], sample={"type": p})
-    chk.floor("R07.3", "model types", n, 9)
+    chk.floor("R07.3", "model types", n, 9, other=9)
 
 
 ERR_TYPES = ("VaporettoError", "io::Error", "std::io::Error", "EncodeError", "DecodeError", "TryFromIntError", "FromUtf8Error")
@@ -285,7 +289,7 @@ def error_discipline(chk, w, rule, fns, floor, extra_ok=(), err_types=None):
         for bb, t in cfgmod.calls(b):
             dl = t["dest"]
             ty = b.locals[dl["local"]]["ty"] if not dl["proj"] else ""
-            if ty.startswith("std::result::Result<") and any(x in ty for x in (err_types or ERR_TYPES)):
+            if C.tyn(ty).startswith("S::result::Result<") and any(x in ty for x in (err_types or ERR_TYPES)):
                 nm = cfgmod.callee(t) or ""
                 if nm.endswith("map_err") or nm.endswith("from_residual") or nm.endswith("::branch"):
                     continue
@@ -330,7 +334,7 @@ def error_discipline(chk, w, rule, fns, floor, extra_ok=(), err_types=None):
                 why = "the function can return successfully although this call failed / its Result is never inspected"
             chk.ob(rule, "%s:%s@%s" % (fn.split("::")[-1] if "<" not in fn else fn.split(" as ")[0].split("::")[-1] + "::" + fn.split("::")[-1], nm.split("::")[-1], _ordinal(sites, bb, nm)), ok,
                    "%s: call of %s: %s" % (fn, nm, why), site=C.site(b, bb), sample={"fn": fn, "callee": nm} if n <= 3 else None)
-    chk.floor(rule, "fallible calls", n, floor)
+    chk.floor(rule, "fallible calls", n, floor, other=2)
     return n
 
 
@@ -340,4 +344,5 @@ def _ordinal(sites, bb, nm):
 
 
 def r074(chk, w):
-    error_discipline(chk, w, "R07.4", [M + "::to_vec", M + "::write", M + "::read", M + "::read_slice"], 6)
+    fns = [f for f in (M + "::to_vec", M + "::write", M + "::read", M + "::read_slice") if chk.config == "W" or w.body(f) is not None]
+    error_discipline(chk, w, "R07.4", fns, 6)
